@@ -139,9 +139,30 @@ func makeJail(base string, spec *FSSpec) error {
 			return fmt.Errorf("mount tmpfs: %w", err)
 		}
 	}
-	for _, e := range spec.Pre {
+	if err := createEntries(target, spec.Pre); err != nil {
+		return err
+	}
+	if spec.TargetMode != 0 {
+		m := os.FileMode(spec.TargetMode & 0o777)
+		if spec.TargetMode&0o1000 != 0 {
+			m |= os.ModeSticky
+		}
+		if spec.TargetMode&0o2000 != 0 {
+			m |= os.ModeSetgid
+		}
+		if err := os.Chmod(target, m); err != nil {
+			return err
+		}
+	}
+	return nil
+}
+
+// createEntries makes the entries below dir.
+func createEntries(target string, entries []FSEntry) error {
+	sep := string(filepath.Separator)
+	for _, e := range entries {
 		p := filepath.Join(target, e.Path)
-		if !strings.HasPrefix(p, target+string(filepath.Separator)) {
+		if !strings.HasPrefix(p, strings.TrimSuffix(target, sep)+sep) {
 			return fmt.Errorf("pre-state path escapes target: %q", e.Path)
 		}
 		switch e.Kind {
@@ -163,18 +184,6 @@ func makeJail(base string, spec *FSSpec) error {
 			if err := os.Symlink(e.Data, p); err != nil {
 				return err
 			}
-		}
-	}
-	if spec.TargetMode != 0 {
-		m := os.FileMode(spec.TargetMode & 0o777)
-		if spec.TargetMode&0o1000 != 0 {
-			m |= os.ModeSticky
-		}
-		if spec.TargetMode&0o2000 != 0 {
-			m |= os.ModeSetgid
-		}
-		if err := os.Chmod(target, m); err != nil {
-			return err
 		}
 	}
 	return nil
